@@ -270,6 +270,21 @@ def path_forms(F, rep):
         if c.get("k") == "LetCond" and callee(peel(c["init"])) == "sylt_common::library_name":
             lib_first = "FileOrLib::Lib" in pp(i["t"])
     rep.ob("PATH-FORMS", "library", lib_first, "a path naming a standard-library module resolves to FileOrLib::Lib", fn["sp"])
+    # ... a *bare* name only: `math/` is the folder math (its exports.sy) and `/math` the file math.sy in the source root, as the
+    # guide documents for every name - the library test must see the path as written, not the name with its slashes trimmed off
+    fl0 = Flow(fn, body)
+    arg_trimmed = None
+    for c_ in nodes(body, "Call"):
+        if callee(c_) == "sylt_common::library_name" and c_["args"]:
+            src = fl0.trace(c_["args"][0])
+            txt = pp(src) if isinstance(src, dict) else ""
+            arg_trimmed = "trim_start_matches" in txt or "trim_end_matches" in txt or "trim_matches" in txt
+    slash_guard = any("contains" in pp(i["c"]) and "/" in pp(i["c"]) for i in ifs)
+    rep.ob("PATH-FORMS", "library|only-bare-names", arg_trimmed is False or slash_guard,
+           "the standard-library lookup sees the path as written: only a name without slashes can name a library module" if (arg_trimmed is False or slash_guard) else
+           "use_path() looks the name up among the standard-library modules *after* trimming its slashes: `use math/ as m` next to a "
+           "folder math/ (exports.sy) and `use /math as m` next to math.sy silently import the standard library's math instead of "
+           "the documented folder / root-relative file", fn["sp"])
     # parent: if path.starts_with("/") { ctx.root } else { file.parent() }
     parent_ok = False
     fl = Flow(fn, body)
